@@ -371,10 +371,12 @@ impl ActorCell {
     pub(crate) fn terminate(&self) {
         let mut pending = vec![self.clone()];
         while let Some(actor) = pending.pop() {
-            // We don't need to notify of exit if we're already stopping or stopped.
-            // A draining actor is neither: it is still working off its mailbox and
-            // has to go down with its supervisor like any other live descendant.
-            if actor.get_status() <= ActorStatus::Draining {
+            // Only an actor which already reached `Stopped` needs no kill. A draining
+            // actor is still working off its mailbox and a stopping actor may still be
+            // running (or be stuck in) `post_stop`: both have to go down with their
+            // supervisor like any other live descendant. `post_stop` is raced against
+            // the signal port, so the kill interrupts it.
+            if actor.get_status() < ActorStatus::Stopped {
                 actor.kill();
             }
 
